@@ -368,6 +368,10 @@ func blockerKey(err error) string {
 		if be.Deadlock {
 			return "deadlock@" + site
 		}
+		if be.Hang {
+			// (the innermost frame of a spinning goroutine differs from sample to sample: name the blocker's step only)
+			return "does-not-terminate@" + strings.SplitN(site, ">", 2)[0]
+		}
 		if be.Overrun {
 			return "harness-overrun"
 		}
